@@ -125,7 +125,7 @@ FLOORS["C11"] = {"quick": [
 FLOORS["C11"]["thorough"] = FLOORS["C11"]["quick"]
 
 PLANS["C12"] = {
-    "rule": "four modes in turn: same size as an integer crop (every algorithm incl. Nearest, alpha on/off) must be a bit-exact copy; rows "
+    "rule": "four modes in turn: same size as an integer crop or as the whole source (no crop option, or fit_into_destination with equal sizes; every algorithm incl. Nearest, alpha on/off) must be a bit-exact copy; rows "
             "match / columns match: each row (column) of the result must equal the resize of that row (column) alone; SuperSampling whose "
             "intermediate has the destination size must equal the nearest-neighbour picks (alpha channel only when alpha handling is on); "
             "every case is non-trivial; distinct = distinct descriptor",
